@@ -11,7 +11,9 @@ NAME_POOL = [
 ]
 SENSOR_POOL = ["gps", "imu", "baro", "alt2", "cam", "lidar_1", "radar", "sonar"]
 READING_POOL = ["r", "z", "range", "angle", "doppler", "p_1", "p_10", "p_2", "Hd", "hd", "_m", "bearing", "u0", "U0"]
-FNS = ["sin", "cos", "exp"]
+# unary functions both back ends support; the reciprocal ones (sec, csc, cot, sech, csch, coth) go through the
+# lambdify namespace / ccode rewriting rather than a direct numpy / <cmath> name
+FNS = ["sin", "cos", "exp", "sin", "cos", "tanh", "sinh", "cosh", "sec", "csc", "cot", "sech", "csch", "coth"]
 
 
 def num(p, q=1):
@@ -114,7 +116,7 @@ def gen_definition(rng, *, rational=True, max_states=5, max_controls=3, max_cal=
     d = {
         "dt": "dt", "state": state, "control": control, "calibration": cal,
         "state_model": sm, "sensors": sensors,
-        "process_noise": {u: rng.choice([0.25, 0.5, 1.0, 2.0, 0.125, 2.5e-7, 4e-10, 1e-3]) for u in control},
+        "process_noise": {u: rng.choice([0.25, 0.5, 1.0, 2.0, 0.125, 2.5e-7, 4e-10, 1e-3, 0.0, 0]) for u in control},
         "sensor_noise": {k: {r: rng.choice([0.25, 0.5, 1.0, 2.0, 0.0625]) for r in rd} for k, rd in sensors.items()},
         "calibration_map": cmap,
         "rational": rational,
@@ -128,7 +130,8 @@ def rnd_point(rng):
 
 
 def rnd_inputs(rng, d):
-    return {"dt": rng.choice([0.125, 0.25, 0.5, 0.0625, 1.0]),
+    # mostly ordinary steps; the zero-length step and a backward step (the managed runtime rewinds) are legitimate too
+    return {"dt": rng.choice([0.125, 0.25, 0.5, 0.0625, 1.0, 0.125, 0.25, 0.5, 0.0, -0.125]),
             "state": {s: rnd_point(rng) for s in d["state"]},
             "control": {u: rnd_point(rng) for u in d["control"]}}
 
